@@ -26,7 +26,8 @@ for line in open(f"{ROOT}/KNOWN_FINDINGS.txt"):
     except Exception as e:
         print(wit, "replay failed", e); continue
     out = p.stdout + p.stderr
-    case = re.search(r"^case: (.*)$", out, re.M)
+    # the decoded case may span many lines; it ends where the verdict lines begin
+    case = re.search(r"^case: (.*?)\n(?=PASS |FAIL |VIOLATION |KNOWN-FINDING|NOTE |\Z)", out, re.M | re.S)
     sigs = re.findall(r"sig=(\S+)", out)
     if kind == "known":
         ok = p.returncode == 124 or (p.returncode == 1 and sig in sigs)
